@@ -1,8 +1,9 @@
 package main
 
 import (
+	"time"
+
 	"verif/harness/gen"
-	"verif/harness/wire"
 )
 
 // randomUniverse draws n seeded random cases (each with its own table rows).
@@ -22,17 +23,37 @@ func randomUniverse(seed int64, n, depth int, tune func(*gen.G)) *ExecUniverse {
 	return u
 }
 
-var _ = wire.Null
+// mixCheck: the mixed exhaustive universe (MC_Mix: the specification's own
+// outcomes satisfy the laws) replayed on the real code, then seeded random
+// cases; prefixes select the clauses this property owns.
+func mixCheck(rc *RunCtx, quick, thorough map[string]string, nRandQuick, nRandThorough int, prefixes ...string) {
+	consts, n := quick, nRandQuick
+	if rc.Tier == "thorough" {
+		consts, n = thorough, nRandThorough
+	}
+	rc.Ev.Assumptions = stdAssumptions
+	if rc.runMC("MC_Mix", []string{"Inv"}, consts, 60*time.Minute) == nil {
+		return
+	}
+	u, err := rc.loadMCUniverse()
+	if err != nil {
+		rc.infra("universe: %v", err)
+		return
+	}
+	u.cross([]bool{true, false})
+	rc.cov("exhaustive", true)
+	rc.cov("rule", "exhaustive part: every kind of head (root, bound/unbound variable, literal, arithmetic, predicate) followed by up to MaxSteps steps from a 22-step alphabet (accessors, subscripts, .**, filters with suppressible and non-suppressible conditions, item methods, keyvalue) plus 12 predicate check expressions x all JSON trees up to MaxNodes nodes plus documents that fail midway x {lax, strict}, each observed with and without WithSilent through all five entry points; random part: seeded grammar-derivable paths of depth <= 3 x random documents and variable sets. Every (path, document, mode) triple is distinct; non-trivial = path has at least one step or operator")
+	rc.cov("universe", map[string]any{"paths": len(u.Paths), "docs": len(u.Docs), "cases": len(u.Cases), "constants": consts, "random_cases": n})
+	rc.execFamily(u, prefixes...)
+	r := randomUniverse(rc.Seed, n, 3, nil)
+	rc.execFamily(r, prefixes...)
+}
 
 func init() {
-	checks["C01"] = func(rc *RunCtx) {
-		rc.Ev.Assumptions = stdAssumptions
-		n := 20000
-		if rc.Tier == "thorough" {
-			n = 300000
-		}
-		u := randomUniverse(rc.Seed, n, 3, nil)
-		rc.cov("rule", "seeded random grammar-derivable paths (depth<=3, every node kind) x random documents (depth<=3) x random variable sets")
-		rc.execFamily(u, "C01")
-	}
+	small := map[string]string{"MaxSteps": "2", "MaxNodes": "2"}
+	mid := map[string]string{"MaxSteps": "2", "MaxNodes": "3"}
+	checks["C01"] = func(rc *RunCtx) { mixCheck(rc, mid, mid, 20000, 400000, "C01") }
+	checks["C05"] = func(rc *RunCtx) { mixCheck(rc, small, mid, 20000, 300000, "C05") }
+	checks["C06"] = func(rc *RunCtx) { mixCheck(rc, small, mid, 20000, 300000, "C06") }
+	checks["C08"] = func(rc *RunCtx) { mixCheck(rc, small, mid, 20000, 300000, "C08") }
 }
